@@ -29,10 +29,12 @@ if ROUND == '13':
     MAP = {'A': 'W', 'B': 'X'}
 if ROUND == '14':
     MAP = {'A': 'Y', 'B': 'Z'}
+if ROUND == '15':
+    MAP = {'A': 'AA'}          # one variant per agent; the single letters are used up
 for p in sys.argv[1:]:
     notes=open('/tmp/wt/%s/seeded/NOTES.md'%p).read()
     unconfirmed = []
-    for v0 in 'AB':
+    for v0 in sorted(MAP):
         v = MAP[v0]
         ver=json.load(open('/verif/work/verify/%s-%s.json'%(p,v)))
         if not ver.get('confirmed'):
